@@ -129,7 +129,13 @@ class MCNP_Object(ABC):
         """
         self.validate()
         self._update_values()
-        lines = self.wrap_string_for_mcnp(self._tree.format(), mcnp_version, True)
+        text = self._tree.format()
+        # the input must not end in the continuation mark "&": the next input would be read as its
+        # continuation (the entry that used to follow the "&" may have been removed)
+        stripped = text.rstrip()
+        if stripped.endswith("&") and "$" not in stripped[stripped.rfind("\n") + 1 :]:
+            text = stripped[:-1].rstrip(" ")
+        lines = self.wrap_string_for_mcnp(text, mcnp_version, True)
         return lines
 
     @property
